@@ -131,6 +131,59 @@ pub fn snf_poly_ff5(s: &mut Src) -> R {
     Ok(())
 }
 
+/// C10, LLL clause, on wide shapes with arbitrary precision (BOUNDED, sampled): lll over BigInt on m x n bases, 1 <= m <= n <= 5, entries
+/// |x| <= 9, rows independent: B = P A, det P = +-1, B size-reduced and Lovasz-reduced (alpha = 3/4), by exact rational Gram-Schmidt.
+pub fn lll_shapes(s: &mut Src) -> R {
+    use num_bigint::BigInt;
+    use num_traits::{Zero, One, Signed};
+    let n = s.small(1, 5) as usize;
+    let m = (s.small(1, 5) as usize).min(n);
+    let mut e = vec![0i64; 25];
+    for x in e.iter_mut() { *x = s.small(-9, 9); }
+    reach!();
+    let bi = |x: i64| BigInt::from(x);
+    // rank by fraction-free elimination (BigInt)
+    let det_or_rank = |rows: &Vec<Vec<BigInt>>, want_det: bool| -> (usize, BigInt) {
+        let (r, c) = (rows.len(), if rows.is_empty() { 0 } else { rows[0].len() });
+        let mut w = rows.clone(); let (mut rank, mut prev, mut sign) = (0usize, BigInt::one(), 1i32);
+        for col in 0..c { if rank == r { break; } if let Some(pr) = (rank..r).find(|&i| !w[i][col].is_zero()) { if pr != rank { w.swap(rank, pr); sign = -sign; } for i in rank + 1..r { for j in col + 1..c { w[i][j] = (&w[i][j] * &w[rank][col] - &w[i][col] * &w[rank][j]) / &prev; } w[i][col] = BigInt::zero(); } prev = w[rank][col].clone(); rank += 1; } }
+        let det = if want_det && rank == r && r == c { if sign > 0 { prev } else { -prev } } else { BigInt::zero() };
+        (rank, det)
+    };
+    let rows: Vec<Vec<BigInt>> = (0..m).map(|i| (0..n).map(|j| bi(e[i * 5 + j])).collect()).collect();
+    pre!(det_or_rank(&rows, false).0 == m);
+    let a = Mat::from_data((m, n), rows.iter().flatten().cloned().collect::<Vec<_>>());
+    let (b, p) = lll(&a, true);
+    let p = p.unwrap();
+    ob!(&p * &a == b, "lll::B==P.A");
+    let prow: Vec<Vec<BigInt>> = (0..m).map(|i| (0..m).map(|j| p[(i, j)].clone()).collect()).collect();
+    ob!(det_or_rank(&prow, true).1.abs() == BigInt::one(), "lll::P-unimodular");
+    // exact Gram-Schmidt with fractions num/den over BigInt (den > 0)
+    #[derive(Clone)] struct Q(BigInt, BigInt);
+    let qn = |a: BigInt, b: BigInt| { if b.is_negative() { Q(-a, -b) } else { Q(a, b) } };
+    let add = |x: &Q, y: &Q| qn(&x.0 * &y.1 + &y.0 * &x.1, &x.1 * &y.1);
+    let sub = |x: &Q, y: &Q| qn(&x.0 * &y.1 - &y.0 * &x.1, &x.1 * &y.1);
+    let mul = |x: &Q, y: &Q| qn(&x.0 * &y.0, &x.1 * &y.1);
+    let div = |x: &Q, y: &Q| qn(&x.0 * &y.1, &x.1 * &y.0);
+    let le = |x: &Q, y: &Q| &x.0 * &y.1 <= &y.0 * &x.1;
+    let row = |i: usize| (0..n).map(|c| Q(b[(i, c)].clone(), BigInt::one())).collect::<Vec<_>>();
+    let dot = |x: &Vec<Q>, y: &Vec<Q>| (0..n).fold(Q(BigInt::zero(), BigInt::one()), |acc, c| add(&acc, &mul(&x[c], &y[c])));
+    let mut bs: Vec<Vec<Q>> = vec![]; let mut mu = vec![vec![Q(BigInt::zero(), BigInt::one()); m]; m];
+    for i in 0..m {
+        let mut v = row(i);
+        for j in 0..i { let nj = dot(&bs[j], &bs[j]); ob!(!nj.0.is_zero(), "lll::rows-independent"); mu[i][j] = div(&dot(&row(i), &bs[j]), &nj); for c in 0..n { v[c] = sub(&v[c], &mul(&mu[i][j], &bs[j][c])); } }
+        bs.push(v);
+    }
+    let half = Q(BigInt::one(), bi(2));
+    for i in 0..m { for j in 0..i { let a = Q(mu[i][j].0.abs(), mu[i][j].1.clone()); ob!(le(&a, &half), "lll::size-reduced(|mu_ij|<=1/2)"); } }
+    for k in 1..m {
+        let lhs = dot(&bs[k], &bs[k]);
+        let rhs = mul(&sub(&Q(bi(3), bi(4)), &mul(&mu[k][k - 1], &mu[k][k - 1])), &dot(&bs[k - 1], &bs[k - 1]));
+        ob!(le(&rhs, &lhs), "lll::Lovasz-condition(alpha=3/4)");
+    }
+    Ok(())
+}
+
 /// the same over Z[i] (units other than +-1 exercise the inverse bookkeeping): 2x2, small entries
 pub fn snf_gauss_small(s: &mut Src) -> R {
     use yui::GaussInt;
@@ -489,4 +542,4 @@ pub fn snf_mat_ops(s: &mut Src) -> R {
     }
     Ok(())
 }
-crate::harness_table!(SNF: snf_small [unwind 4], snf_gauss_small [unwind 4], trans_small [unwind 4], lll_small [unwind 4], snf_mat_ops [unwind 4], lll_rows45 [unwind 4], spmat_ops_small [unwind 4], spvec_mat_ops_small [unwind 4], snf_shapes [unwind 4], hnf_shapes [unwind 4], snf_poly_ff5 [unwind 4]);
+crate::harness_table!(SNF: snf_small [unwind 4], snf_gauss_small [unwind 4], trans_small [unwind 4], lll_small [unwind 4], snf_mat_ops [unwind 4], lll_rows45 [unwind 4], spmat_ops_small [unwind 4], spvec_mat_ops_small [unwind 4], snf_shapes [unwind 4], hnf_shapes [unwind 4], snf_poly_ff5 [unwind 4], lll_shapes [unwind 4]);
